@@ -18,11 +18,12 @@ REPO = os.environ.get('PB_BSS_REPO', '/repo')
 
 class Case:
     def __init__(self, name, fn, kw=None, bounds='', timeout_ms=20000, max_paths=2000, cosim=2, budget_s=400,
-                 expect_exception=None, pin_tries=2, lazy=False):
+                 expect_exception=None, pin_tries=2, lazy=False, allow=()):
         self.name, self.fn, self.kw = name, fn, dict(kw or {})
         self.bounds, self.timeout_ms, self.max_paths, self.cosim, self.budget_s = bounds, timeout_ms, max_paths, cosim, budget_s
         self.pin_tries = pin_tries
         self.lazy = lazy
+        self.allow = tuple(allow)      # exception type names the property allows (explicit exception on degenerate input)
 
 
 def _setup_path():
@@ -79,7 +80,7 @@ def run_sym(prop, tier, case_name, seed):
 
     sys.setprofile(_profiler)
     try:
-        gen = core.explore(_guard(body, env), max_paths=case.max_paths)
+        gen = core.explore(_guard(body, env, case.allow), max_paths=case.max_paths)
         for _ in gen:
             res['paths'] += 1
             env.path_no += 1
@@ -111,7 +112,7 @@ def run_sym(prop, tier, case_name, seed):
     return res
 
 
-def _guard(body, env):
+def _guard(body, env, allow=()):
     """exceptions of the code under test on a feasible path are candidate violations"""
     from symnp import core
     from symnp.env import Obl
@@ -125,6 +126,9 @@ def _guard(body, env):
             raise
         except Exception as e:
             tb = traceback.format_exc(limit=6)
+            if type(e).__name__ in allow and _in_repo(e):
+                env.obls.append(Obl('allowed_exception:%s' % type(e).__name__, 'unsat', 0.0, False, env.path_no))
+                return None
             if _from_engine(e) or not _in_repo(e):
                 raise core.Unsupported('engine error: %r\n%s' % (e, tb))
             label = 'no_exception:%s' % type(e).__name__
@@ -183,7 +187,9 @@ def run_conc(prop, tier, case_name, seed, values):
         out['outside'] = True
         out['note'] = str(e)
     except Exception as e:
-        if _in_repo(e):
+        if type(e).__name__ in case.allow and _in_repo(e):
+            out['note'] = 'allowed exception %s' % type(e).__name__
+        elif _in_repo(e):
             out['failed'].append(('no_exception:%s' % type(e).__name__, traceback.format_exc(limit=8)[-700:]))
         else:
             out['error'] = 'harness exception in concrete mode: ' + traceback.format_exc(limit=8)[-900:]
